@@ -38,22 +38,22 @@ type c15Env struct {
 }
 
 var c15Sources = map[string]string{
-	"ok.p":     "add_key(k, 1)\nx = 5\nadd_key(y, x)\nset_measurement(\"mm\")\nadd_key(total, f1 + 1)\nadd_key(where, t1 + \"!\")\nadd_key(twice, f2 * 2)\n",
+	"ok.p":     "add_key(k, 1)\nx = 5\nadd_key(y, x)\nset_measurement(\"mm\")\nadd_key(total, f1 + 1)\nadd_key(where, t1 + \"!\")\nadd_key(twice, f2 * 2)\nsql_cover(sq)\n",
 	"loop.p":   "secret = \"leaked-by-loop\"\nsecret2 = [9]\nfor i in [1, 2, 3] {\n inner = i\n add_key(k, i)\n if i == 2 { p(1 / zz) }\n}\n",
 	"exit.p":   "x = 1\nsecret = \"leaked-by-exit\"\nfor i in [1, 2] { if i == 1 { if true { inner = 7\nadd_key(e, i)\nexit() } } }\nadd_key(after, 1)\n",
 	"setv.p":   "secret = 42\nsecret2 = [1, 2]\n_ = \"shadowed message\"\nadd_key(done, 1)\n",
 	"readv.p":  "add_key(leak, secret)\nadd_key(leak2, secret2)\nadd_key(leak3, inner)\nadd_key(leak4, i)\nadd_key(leak5, x)\nadd_key(msgcopy, _)\nif secret == nil { add_key(clean, true) }\n",
 	"grok.p":   "add_pattern(\"wd\", \"[a-z]+\")\nok = grok(_, \"%{wd:w} %{INT:n:int}\")\nadd_key(ok)\nuse(\"ok.p\")\n",
-	"retag.p":  "drop_key(t1)\nset_tag(f1)\nadd_key(t1, \"now field\")\nrename(g, f1)\ncast(f2, \"str\")\nadd_key(t2, drop_key(nokey))\nrename(t9, t2)\nset_tag(f3, obj.attr)\nrename(t8, f3)\nadd_key(f4, nil)\nrename(t7, f4)\nrename(t6, nokey)\n",
+	"retag.p":  "drop_key(t1)\nset_tag(f1)\nadd_key(t1, \"now field\")\nrename(g, f1)\ncast(f2, \"str\")\nadd_key(t2, drop_key(nokey))\nrename(t9, t2)\nset_tag(f3, obj.attr)\nrename(t8, f3)\nadd_key(f4, nil)\nrename(t7, f4)\nrename(t6, nokey)\nsql_cover(sq)\n",
 	"spin.p":   "n = 0\nfor ;; { n = n + 1\nadd_key(n) }\n",
-	"lit.p":    "g = [[0, 0], [1]]\ng[0][0] += 1\nm = {\"k\": [0], \"j\": {\"n\": 0}}\nm[\"k\"][0] += 1\nm[\"j\"][\"n\"] = m[\"j\"][\"n\"] + 1\nadd_key(g0, g[0][0])\nadd_key(mk, m[\"k\"][0])\nadd_key(mj, m[\"j\"][\"n\"])\nif \"a\" in [\"a\", \"b\"] { add_key(found, true) }\n",
+	"lit.p":    "g = [[0, 0], [1]]\ng[0][0] += 1\nm = {\"k\": [0], \"j\": {\"n\": 0}}\nm[\"k\"][0] += 1\nm[\"j\"][\"n\"] = m[\"j\"][\"n\"] + 1\nadd_key(g0, g[0][0])\nadd_key(mk, m[\"k\"][0])\nadd_key(mj, m[\"j\"][\"n\"])\nif \"a\" in [\"a\", \"b\"] { add_key(found, true) }\nsql_cover(sq)\nset_tag(newtag, \"set on a point that came without tags\")\n",
 }
 
 func c15Points() []PointSpec {
 	return []PointSpec{
-		{Meas: "m1", Tags: map[string]string{"t1": "tv"}, Fields: map[string]any{"message": "hello 42", "f1": int64(7), "f2": 2.5}, Time: 1600000000000000000},
-		{Meas: "m2", Tags: map[string]string{}, Fields: map[string]any{"message": "x"}, Time: 1},
-		{Meas: "m3", Tags: map[string]string{"t1": "a", "t2": "b", "t3": "c"}, Fields: map[string]any{"message": nil, "f1": "s", "f2": true, "f3": int64(1), "f4": int64(2)}, Time: 2},
+		{Meas: "m1", Tags: map[string]string{"t1": "tv"}, Fields: map[string]any{"message": "hello 42", "f1": int64(7), "f2": 2.5, "sq": `select * from t where dir = 'c:\temp\'`}, Time: 1600000000000000000},
+		{Meas: "m2", Tags: nil, Fields: map[string]any{"message": "x", "sq": "SELECT 'a\\' , b -- '\nFROM t"}, Time: 1}, // no tags at all (as every text input)
+		{Meas: "m3", Tags: map[string]string{"t1": "a", "t2": "b", "t3": "c"}, Fields: map[string]any{"message": nil, "f1": "s", "f2": true, "f3": int64(1), "f4": int64(2), "sq": `select "prod\users" from t where p = 'x\'`}, Time: 2},
 	}
 }
 
@@ -62,8 +62,11 @@ func c15Points() []PointSpec {
 func runOnPooledPoint(sc *plrt.Script, ps PointSpec, fireAt int) string {
 	pt := input.GetPoint()
 	defer input.PutPoint(pt)
-	tags := map[string]string{}
+	var tags map[string]string // nil when the point comes without tags
 	for k, v := range ps.Tags {
+		if tags == nil {
+			tags = map[string]string{}
+		}
 		tags[k] = v
 	}
 	fields := map[string]any{}
@@ -263,7 +266,13 @@ func c15Run(w *run.Worker) {
 			w.Violate("C15:outcome-depends-on-history:"+ops[li].Name+":"+kind,
 				fmt.Sprintf("history %v with pool answers %v:\nlast operation gives  %s\nalone in a fresh state %s", names, taken, last, base[li]), c15Case{History: hist, Choices: taken})
 		}
-		if devs >= bound {
+		// the longest histories get one deviation less (the number of executions grows with the square of
+		// the choice points per deviation)
+		b := bound
+		if len(hist) == maxLen {
+			b = bound - 1
+		}
+		if devs >= b {
 			return
 		}
 		for i := len(prefix); i < len(points); i++ {
@@ -365,7 +374,7 @@ func init() {
 		ID:    "C15",
 		Level: "model_checking",
 		Rule: "operation histories of length <=3 (thorough <=4) over 18 operations: load-and-run of a grok script with global patterns / under a local pattern of the same name / of another deployment whose entry file has the same text as a loaded one; load of a valid / syntax-error / lexer-error / parser-panic / check-error source; run of scripts that succeed, fail inside a loop, exit inside nested blocks, set variables, read the same names unbound, use grok + use(), delete and re-add tags and fields, each on a point taken from the point pool; runs cancelled at poll 1 and 7; " +
-			"instrumented build with a sync.Pool shim: the answer of EVERY pool Get (parser, task, point, metadata) is an explorer choice — default LIFO reuse, then every deviation (any other pooled object, or a fresh one) at every Get, <=2 deviations per history; " +
+			"instrumented build with a sync.Pool shim: the answer of EVERY pool Get (parser, task, point, metadata) is an explorer choice — default LIFO reuse, then every deviation (any other pooled object, or a fresh one) at every Get, <=2 deviations per history (<=1 for the histories of maximal length); " +
 			"oracle: the last operation's outcome (load verdict and error text / probe trace, canonical final point, error text, drop flag) equals the outcome of the same operation executed first in a fresh process (baselines are computed in separate subprocesses); loaded scripts are shared by all histories",
 		Assumptions: []string{"the pools and the loaded syntax trees are the only state that survives an operation (package-level variables were listed by reading the sources)"},
 		Run:            c15Run,
